@@ -232,7 +232,11 @@ def main(argv=None):
     }
     if not cov["evaluations"]:
         cov.pop("evaluations"); cov.pop("distinct_nontrivial")
-    common.write_evidence(a.prop, a.tier, P.LEVEL, cov, list(getattr(P, "ASSUMPTIONS", [])), wall,
+    assumptions = list(getattr(P, "ASSUMPTIONS", []))
+    for u in common.unproved_classes():
+        if "NOT-PROVED:" + u["id"] in known_used:
+            assumptions.append(f"NOT PROVED (excluded, not a finding) for obligations {u['obligations']} on input classes {u['classes']}: {u['why']}")
+    common.write_evidence(a.prop, a.tier, P.LEVEL, cov, assumptions, wall,
                           len(violations), seed)
     print(f"[{a.prop}] proof obligations {n_disch}/{n_proof} discharged, partial (bounded) {len(partial)}, unproved {len(unproved)}, bounded tasks {n_bounded}, "
           f"violations {len(violations)}, undecided {len(undecided)+len(lost)}, errors {len(errors)}, {wall:.1f}s -> exit {rc}")
